@@ -148,7 +148,6 @@ func c07body(c c07cfg) func(x *vsched.Exec) {
 	}
 }
 
-
 // ---- batches with per-command TTLs and mixed cache states
 
 type c07bcfg struct {
